@@ -72,6 +72,8 @@ func main() {
 		err = traceCLI(o)
 	case "bytes":
 		err = traceBytes(o)
+	case "conc":
+		err = traceConc(o)
 	case "fields":
 		err = traceFields(o)
 	case "http":
